@@ -32,6 +32,7 @@ WORDS_NONASCII = ['Straße', 'naïve', 'Übung', 'café',
                   'äöü', '¿qué', '£']
 WORDS_BEYOND_LATIN1 = ['日本', '€', 'Жук',
                        'αβ', '—']
+WORDS_UNISPACE = ['20\u00a0000', 'x\u3000y', 'a\u2009b', '\u00a0']
 WORDS_PAREN = ['(', ')', '[', ']', '{', '}', 'a(b)c', '-LRB-', '-RRB-',
                'f(x)', '((']
 MORPHS = ['--', 'Nom.Sg.Masc', '3.Sg.Pres.Ind', 'Pos', 'Dat.Pl.Fem', '--']
